@@ -7,6 +7,7 @@ use brush_core::{ExecutionControlFlow, ExecutionExitCode, ExecutionResult, built
 #[derive(Parser)]
 pub(crate) struct ReturnCommand {
     /// The exit code to return.
+    #[arg(allow_hyphen_values = true)]
     code: Option<i32>,
 }
 
